@@ -626,11 +626,11 @@ fn conformance_err(ctx: &Context, top: &Number, bottom: &Number) -> ConformanceE
     let mut bottomu = bottom.clone();
     bottomu.value = Numeric::one();
     let mut suggestions = vec![];
-    let diff = (&topu * &bottomu).unwrap();
-    if diff.dimless() {
+    // The product or quotient does not exist when the unit exponents leave i64.
+    let product_dimless = (&topu * &bottomu).map_or(false, |diff| diff.dimless());
+    if product_dimless {
         suggestions.push("Reciprocal conversion, invert one side".to_string());
-    } else {
-        let diff = (&topu / &bottomu).unwrap();
+    } else if let Some(diff) = &topu / &bottomu {
         let (recip, desc) = ctx.describe_unit(&diff.invert());
         let word = multiply_or_divide(recip);
         suggestions.push(format!("{word} left side by {}", desc.trim(), word = word));
